@@ -81,3 +81,15 @@ func zzRunTid(erp *ECALRuntimeProvider, src string, vs parser.Scope, tid uint64)
 	}
 	return ast.Runtime.Eval(vs, make(map[string]interface{}), tid)
 }
+
+// mark("x"): an ECAL function harnesses register to record the order of events in real programs.
+var c02Marks []string
+
+type c02Mark struct{ *inbuildBaseFunc }
+
+func (f *c02Mark) Run(instanceID string, vs parser.Scope, is map[string]interface{}, tid uint64, args []interface{}) (interface{}, error) {
+	c02Marks = append(c02Marks, args[0].(string))
+	return nil, nil
+}
+func (f *c02Mark) DocString() (string, error) { return "", nil }
+
